@@ -38,11 +38,20 @@ RULE = ('(a) kind `tree`: 45 fixed formulas (reversed / one-cell / $-mixed range
         'the middle, `;`-separated and two-row `a,b;c,d` argument lists), a raising function BOOM, an unknown name (NOSUCH, '
         'XYZZY); each rendered minimally or (30%) fully parenthesised, 30% with white space at token boundaries. Listeners '
         'on all four events of a fresh hotxlfp.Parser record every field (call arguments as deep copies) in one ordered '
-        'log; the cell / range listeners hand over a value fixed by the upper-cased label(s) (crc32: cell blank / 0 / 0.5 / '
-        '1..15, range blank / one of 4 number lists) through one of 4 call scripts (v; junk, v; v, None; None, 99, v, None; '
-        'blank: no call or one call with None). Oracle: the log equals the post-order list of the reference/call nodes of '
-        'the generating tree (for a fixed text: of the tree the real ply tables build with tree-building actions; a text '
-        'they reject is not judged), a prefix of it when the record carries an error; each cell event carries '
+        'log; AHEAD of them every parser that evaluates a case (all kinds (a)-(e), the reference runs of (e) included) gets, for '
+        'each of the four events, a one-shot tracer registered with `once` and a listener that unsubscribes itself with '
+        '`off` at its first call (both set and record nothing), so that the listener list changes WHILE the first event of '
+        'each kind on that parser is being delivered; the cell / range listeners hand over a value fixed by the upper-cased '
+        'label(s) (crc32 mod 20: cell blank (3 of 20) / 0 / 0.5 / the text "abc" (1 of 20; arithmetic on it gives the error '
+        'value #VALUE!) / 2..15; crc32 mod 5: range blank / one of 4 number lists) through one of 4 call scripts (v; junk, v; '
+        'v, None; None, 99, v, None; blank: no call or one call with None). Oracle: the log equals the post-order list of the '
+        'reference/call nodes of the generating tree (for a fixed text: of the tree the real ply tables build with '
+        'tree-building actions; a text they reject is not judged), a prefix of it when the record carries an error - except '
+        'for a `total` seeded tree (never_aborts: made only of integer / decimal literals, cell references, single names of '
+        'the 6 defined variables, + - * /, and flat or zero-argument calls of SUM / ID / ARGS / K7 without a second row, '
+        'omitted slots allowed, ranges only as direct arguments of SUM): such a tree cannot raise, an error in its record is '
+        'an error VALUE (division by zero, text - a text cell - under arithmetic) and the full list is demanded '
+        'all the same (seeded trees of (a) and seeded steps of (d) only; not fixed texts, not (e)); each cell event carries '
         'label.upper(), coordinates computed by an independent bijective base-26 / row-1 reference and the $ flags; each '
         'range event carries (min row, min col), (max row, max col) built from the written row/column parts with their $ '
         'flags and labels that recompose from their own coordinates; a variable event carries the (first) name, a call '
@@ -55,7 +64,8 @@ RULE = ('(a) kind `tree`: 45 fixed formulas (reversed / one-cell / $-mixed range
         'everything / raising on foreign operands / element-wise without truth value} (25% of the plans all None) for one '
         'of the four events: cell, range, variable vx (undefined, or holding one of the 9 plain non-None pool values), '
         'function (custom returning any pool value incl. None, builtin SUM(1,2), raising BOOM(1)); read back from the '
-        'record or (40%) through a capturing function CAP; here the recording listeners set nothing. Oracle: last non-None '
+        'record or (40%) through a capturing function CAP; here the recording listeners set nothing (they, the once-tracer and '
+        'the self-unsubscribing listener are registered before the plan\'s listeners). Oracle: last non-None '
         'value, else blank / stored value / return value (3, #DIV/0!), of the same type (host objects: the same object), and '
         'exactly one event for the reference; compared with the model\'s `applySetters` (a host object: unmodelled value on '
         'both sides); an undefined variable is oracle-only, and not judged when no value was supplied. (c) kind `tree`, '
@@ -71,16 +81,24 @@ RULE = ('(a) kind `tree`: 45 fixed formulas (reversed / one-cell / $-mixed range
         'back as a plain cell, as a written corner and as a normalised corner of ranges in all corner orders, inside one '
         'formula and across formulas, many times. One case per step: the oracle of (a) is applied to EVERY event of EVERY '
         'step (post-order list of that step, upper-cased label, independent coordinates, $ flags, normalised corners whose '
-        'labels recompose), whatever was evaluated before; each step is compared with the (stateless) model\'s `eval` of '
-        'its formula alone. (e) kind `reent`, re-entrant hosts, 16 fixed scenarios plus 400 / 6000 x scale seeded attempts '
+        'labels recompose; the full count for a total seeded step even when its record carries an error), whatever was '
+        'evaluated before (the once-tracer and the self-unsubscribing listener leave during the first event of each kind of '
+        'the session); each step is compared with the (stateless) model\'s `eval` of its formula alone. (e) kind `reent`, '
+        're-entrant hosts, 16 fixed scenarios (use at the beginning / in the middle / at the end, the same cell three times, '
+        'cells and names using one another, two INDIRECT-like calls, inner #NAME?, inner 1/0 raised under IFERROR, two inner '
+        'syntax errors, a range before the call) plus 400 / 6000 x scale seeded attempts '
         '(the few that yield no usable acyclic layout are dropped): the host stores formulas (numeric trees of depth 0..2 '
         'over a pool of 2..3 x 2..3 labels) in 1..4 ranked things - cells (the cell listener evaluates the stored formula '
         'ON THE SAME PARSER while the outer evaluation is in progress and hands over its result), defined names (variable '
         'listener) and INDIRECT-like custom functions that evaluate their text argument (returning the result or, in half '
-        'of the scenarios, raising the error) - which may use one another (rank order, no cycles, nesting depth up to 4); '
+        'of the scenarios, raising the error) - which may use one another (rank order, a leaf of a stored formula is a '
+        'later thing with p 0.3, a function\'s text holds no INDIRECT-like call and no text literal, no cycles, nesting '
+        'depth up to 4; a cell hands its result over through the call script of its label, a name by one setter call); '
         'the outer formula uses them at its beginning / in the middle (operand, call argument of ARGS / SUM / ID / MAX) / '
-        'at its end or anywhere in a seeded tree (depths as in (d)). The recording listeners attribute each event to its '
-        'nesting depth. Oracle: the depth-0 events are the post-order list of the OUTER formula (oracle of (a), incl. the '
+        'at its end or (2 shapes of 6) anywhere in a seeded tree (depths as in (d)), 20% fully parenthesised, 20% (when it '
+        'holds no text literal) with white space. The recording listeners attribute each event to its '
+        'nesting depth. Oracle: the depth-0 events are the post-order list of the OUTER formula (oracle of (a) without the '
+        'total-tree strengthening: a prefix whenever the record carries an error; incl. the '
         'references after the re-entrant call), and record and event list (with call arguments; equal types and values, '
         'errors by text) of the outer evaluation equal those of the same formula evaluated on the real implementation with '
         'every inner formula evaluated on a parser of its own, i.e. with the inner results as constants; the same two '
@@ -99,24 +117,38 @@ TRUSTED = ['ply evaluates semantic actions bottom-up, left to right (the model e
            'is trusted not to change what is reduced when',
            'hotxlfp.tinyemitter.Emitter.emit calls the registered listeners in registration order (C20); the model receives '
            'the setter calls already flattened in that order',
+           'the one-shot tracer (once) and the self-unsubscribing listener (off) registered ahead of the recording listeners '
+           'for each event set nothing and record nothing and are no part of the model request (the model knows no listener '
+           'list): that their leaving during the first delivery of each kind costs no later listener its call, nor its '
+           'value, is judged only through the log and the record (a skipped recording listener is a missing event)',
+           'never_aborts, which decides for which seeded trees the oracle demands every event although the record carries '
+           'an error, is a hand-written syntactic classification of the generating tree (not derived from the model; the '
+           'model comparison demands the full event list independently)',
            'the model is stateless and has no notion of an evaluation in progress: sessions (d) and re-entrant hosts (e) '
            'are tied to it only by this check (each step / the outer formula with inner results as constants = `eval`); '
            'that a parser keeps no state between or across evaluations is not a Lean theorem',
            'the reference run of (e) uses the real implementation with one fresh Parser per inner formula (the pattern of '
            'tests/test_parser.py); both runs use the same deterministic listeners',
-           'the values the listeners hand over are functions of the upper-cased label(s) alone (zlib.crc32) and reach the '
+           'the values the listeners hand over (numbers, the text "abc" for one cell label in 20, lists of numbers for '
+           'ranges) are functions of the upper-cased label(s) alone (zlib.crc32) and reach the '
            'model as its cell / range environment (for fixed texts through a token scan of the text); float results are '
            'accepted within 4 ulps or 1e-9 relative, float call arguments within 4 ulps; values the model does not model '
            '(host objects, results of unmodelled builtins) are accepted as such',
            'harness mechanisms: copy.deepcopy for the recorded call arguments and the handed-over pool values (the host '
            'objects with their own equality copy to themselves and are looked at by identity only); the steps of a session '
-           'are run once, in order, on one parser and each per-step case reads its slice of that log']
+           'are run once, in order, on one parser and each per-step case reads its slice of that log; a re-entrant host '
+           'that nests beyond depth 12 is stopped by the harness (RuntimeError)']
 ASSUMPTIONS = ['labels with a zero row or leading zeros (A0, A01) are outside the statement\'s label domain: order, multiplicity '
                'and the upper-cased cell label are still checked for them, coordinates (and a range with such a corner) only '
                'against the model; columns beyond XFD and rows beyond 1048576 are inside it',
                'when parse reports an error, the references after the point of failure are not required to raise events '
                '(the log must be a prefix of the post-order list); the oracle grants this whenever the record carries an '
-               'error, an error VALUE (1/0, BOOM) included - there the full count is demanded by the model comparison only',
+               'error, an error VALUE (1/0, BOOM) included - there the full count is demanded by the model comparison only; '
+               'except for seeded trees made only of constructs taken to be unable to RAISE (number literals, cell references, '
+               'single defined variables, + - * / on them, flat SUM / ID / ARGS / K7 calls, ranges directly under SUM): there '
+               'an error in the record can only be an error VALUE (division by zero is #DIV/0!, arithmetic on text - a text '
+               'cell - is #VALUE!), nothing was aborted, and the oracle itself demands one event for every '
+               'reference and call',
                'for a one-row (one-column) range whose two row (column) parts differ only by $, either part may be reported '
                'as the start; in a range the $ flag belongs to the row / column part it was written on and moves with it '
                'when the corners are normalised, and a corner label agrees with its coordinates when it is $-flag + column '
